@@ -170,7 +170,9 @@ class C15(core.Prop):
                         # classify the cause
                         def norm_nl(b):
                             return b.replace(b'\r\n', b'\n').replace(b'\r', b'\n')
-                        if got == want.rstrip(b'\r\n') or norm_nl(got) == norm_nl(want).rstrip(b'\n') or got + b'\n' == norm_nl(want):
+                        if norm_nl(got).rstrip(b'\n') == norm_nl(want).rstrip(b'\n'):
+                            # same call site, same cause: the file is '\n'.join(lines) - only line endings and
+                            # trailing newlines / empty lines can differ
                             key = 'raw-actual:final-newline-or-line-endings'
                         elif o.get('remove_lines') or o.get('preprocess'):
                             key = 'raw-actual:holds-text-after-removal-or-preprocess'
